@@ -39,6 +39,7 @@ func (f *Fam) monExport(fail func(string, string, string)) {
 	}
 	type outcome struct {
 		init, begin, end, hash, state string
+		vals                          map[string]ValRec // the validator records right after the import
 	}
 	run := func(pr stypes.PruningOptions) (o outcome) {
 		defer func() {
@@ -63,6 +64,7 @@ func (f *Fam) monExport(fail func(string, string, string)) {
 		res := a.InitChain(abci.RequestInitChain{ChainId: ChainID, Time: time.Unix(0, 0).UTC(),
 			ConsensusParams: &abci.ConsensusParams{Validator: &abci.ValidatorParams{PubKeyTypes: []string{tmtypes.ABCIPubKeyTypeEd25519}}}})
 		a.Pos.SetParams(a.Ctx(), real)
+		o.vals = a.Snap().Vals
 		o.init = "ups=" + upsStr(res.Validators)
 		req := abci.RequestBeginBlock{Header: abci.Header{ChainID: ChainID, Height: 1, Time: time.Unix(0, f.now+1).UTC()}}
 		for _, u := range res.Validators { // everybody in the returned set signs the first block
@@ -88,6 +90,20 @@ func (f *Fam) monExport(fail func(string, string, string)) {
 		f.extra["c01:export-import-refused:"+clip(x.init)]++
 	} else if strings.Count(x.init, ":") >= 2 {
 		f.extra["c01:export-import-with-2+-validators"]++
+	}
+	// C09: nobody is unjailed by an export and import of the state (and no record changes on the way)
+	if !strings.Contains(x.init, "PANIC") && x.vals != nil {
+		for a, v := range f.app.Snap().Vals {
+			w, ok := x.vals[a]
+			switch {
+			case !ok:
+				fail("export-import", "C09:validator-lost-on-import", fmt.Sprintf("validator %s of the exported state is missing after the import", a))
+			case v.Jailed && !w.Jailed:
+				fail("export-import", "C09:unjailed-by-export-import", fmt.Sprintf("validator %s is jailed in the exported state and not jailed after the import (status %d, no unjail request)", a, w.Status))
+			case v.Jailed != w.Jailed || v.Status != w.Status || !v.Tokens.Equal(w.Tokens) || v.Unstake != w.Unstake:
+				fail("export-import", "C09:validator-changed-by-export-import", fmt.Sprintf("validator %s: exported %+v, imported %+v", a, v, w))
+			}
+		}
 	}
 	switch {
 	case x.init != y.init:
